@@ -133,6 +133,7 @@ type exec struct {
 	raws    []*udpsvc.RawSocket
 	names   []string
 
+	abort    atomic.Bool // set at the first missed liveness bound: the run is void (retried or judged on safety only)
 	mu       sync.Mutex
 	liveMiss []string
 	labels   map[string]bool
@@ -140,7 +141,12 @@ type exec struct {
 }
 
 func (x *exec) label(l string) { x.mu.Lock(); x.labels[l] = true; x.mu.Unlock() }
-func (x *exec) miss(s string)  { x.mu.Lock(); x.liveMiss = append(x.liveMiss, s); x.mu.Unlock() }
+func (x *exec) miss(s string) {
+	x.abort.Store(true)
+	x.mu.Lock()
+	x.liveMiss = append(x.liveMiss, s)
+	x.mu.Unlock()
+}
 
 type outcome struct {
 	violation  string
@@ -154,12 +160,15 @@ type outcome struct {
 
 func (x *exec) runOps(c *udpsvc.Client, ops []planOp) {
 	for _, o := range ops {
+		if x.abort.Load() {
+			return
+		}
 		switch o.Kind {
 		case "rebind":
 			c.Rebind()
 			x.label("rebind")
 		case "paced":
-			for i := 0; i < o.N; i++ {
+			for i := 0; i < o.N && !x.abort.Load(); i++ {
 				d := o.Dest
 				if i%2 == 1 {
 					d = o.Alt
@@ -174,13 +183,14 @@ func (x *exec) runOps(c *udpsvc.Client, ops []planOp) {
 			}
 		case "burst":
 			x.label("burst")
-			for i := 0; i < o.N; i++ {
-				d := o.Dest
+			dests := make([]int, o.N)
+			for i := range dests {
+				dests[i] = o.Dest
 				if i%2 == 1 {
-					d = o.Alt
+					dests[i] = o.Alt
 				}
-				c.Send(c.NextSeq(), d, o.Fill)
 			}
+			c.Burst(dests, o.Fill)
 		}
 	}
 }
@@ -331,6 +341,9 @@ func runPlan(p *plan, workDir string) (out outcome) {
 		for i, c := range x.clients {
 			d := lastDest(p.Sessions[i])
 			wg.Go(func() {
+				if x.abort.Load() {
+					return
+				}
 				if seq, ok, n := c.Paced(d, 8, pacedWait, pacedTries); !ok {
 					x.miss(fmt.Sprintf("%s fence: session %d seq %d: no echo after %d datagrams", tag, c.ID, seq, n))
 				}
@@ -338,7 +351,7 @@ func runPlan(p *plan, workDir string) (out outcome) {
 		}
 		wg.Wait()
 	}
-	if len(p.Garbage) > 0 {
+	if len(p.Garbage) > 0 && !x.abort.Load() {
 		fence("pre-garbage") // drains bursts of phase A
 		time.Sleep(20 * time.Millisecond)
 		gBefore := udpsvc.RepoGoroutines()
@@ -347,7 +360,9 @@ func runPlan(p *plan, workDir string) (out outcome) {
 		fence("post-garbage")
 		gAfter := udpsvc.RepoGoroutines()
 		_, sAfter := udpsvc.FDs()
-		if len(gAfter) != len(gBefore) || sAfter != sBefore {
+		if x.abort.Load() {
+			// a fence echo is missing: the counts are not comparable in this run
+		} else if len(gAfter) != len(gBefore) || sAfter != sBefore {
 			// confirm it is not a transient (a goroutine in the middle of exiting)
 			time.Sleep(100 * time.Millisecond)
 			gAfter = udpsvc.RepoGoroutines()
@@ -571,7 +586,11 @@ func (x *exec) judge(out *outcome, fail func(sig, format string, args ...any)) {
 			}
 		}
 		if c.NSocks() > 1 {
-			x.label("address-change")
+			if ss {
+				x.label("ss2022-address-change")
+			} else {
+				x.label("nat-new-client-address")
+			}
 		}
 	}
 	for i, r := range x.raws {
